@@ -152,8 +152,8 @@ Section Abstract.
     cbn [hd] in *. intros k Hk.
     assert (X a < X b) by (apply Xinc; lia). assert (X b < X i) by (apply Xinc; lia).
     destruct (le_lt_dec k b) as [Hkb|Hkb].
-    - unfold cc in *. eapply G1; [eassumption|eassumption| |apply Hedge; lia|exact Et]. apply Xle. lia.
-    - unfold cc in *. eapply G2; [eassumption|eassumption| |apply Hgood; lia|exact Et]. apply Xle. lia.
+    - unfold cc in *. apply (G1 (X a) (Y a) (X b) (Y b) (X i) (Y i)); [assumption|assumption|apply Xle; lia|apply Hedge; lia|exact Et].
+    - unfold cc in *. apply (G2 (X a) (Y a) (X b) (Y b) (X i) (Y i)); [assumption|assumption|apply Xle; lia|apply Hgood; lia|exact Et].
   Qed.
 
   Definition GInv (i : nat) (st : list nat) : Prop :=
@@ -221,7 +221,7 @@ Section Abstract.
       assert (Hk2 : 0 <= cc s t k).
       { destruct (le_lt_dec k t); [apply Hedge; lia|].
         apply (IH s t m); auto; [eapply SI_tl; eauto|lia]. }
-      unfold cc in *. eapply G3; [apply Xinc; lia|apply Xinc; lia|apply Xle; lia|exact Hpst|exact Hk2].
+      unfold cc in *. apply (G3 (X p) (Y p) (X s) (Y s) (X t) (Y t)); [apply Xinc; lia|apply Xinc; lia|apply Xle; lia|exact Hpst|exact Hk2].
   Qed.
 
   Lemma left_support : forall front p s,
@@ -250,7 +250,7 @@ Section Abstract.
       { destruct (le_lt_dec o k).
         - pose proof (pairs_mid _ _ _ _ _ HC') as Hedge. cbn in Hedge. apply Hedge. lia.
         - apply (IH o p); auto; lia. }
-      unfold cc in *. eapply G4; [apply Xinc; lia|apply Xinc; lia|apply Xle; lia|exact Hk2|exact Hops].
+      unfold cc in *. apply (G4 (X o) (Y o) (X p) (Y p) (X s) (Y s)); [apply Xinc; lia|apply Xinc; lia|apply Xle; lia|exact Hk2|exact Hops].
   Qed.
 
   Lemma SI_gap : forall out k, SI out -> (hd 0%nat out <= k <= last out 0%nat)%nat -> ~ In k out ->
@@ -316,7 +316,7 @@ Section Abstract.
         - rewrite E in HC. apply pairs_mid in HC. apply HC. lia. }
       assert (HM : 0 < cc p k s).
       { rewrite E'' in HV. cbn [app] in HV. apply trip_mid in HV. exact HV. }
-      unfold cc in *. eapply G5; [apply Xinc; lia|apply Xinc; lia|apply Xinc; lia|apply Xinc; lia|exact HL|exact HR|exact HM].
+      unfold cc in *. apply (G5 (X a) (Y a) (X k) (Y k) (X b) (Y b) (X p) (Y p) (X s) (Y s)); [apply Xinc; lia|apply Xinc; lia|apply Xinc; lia|apply Xinc; lia|exact HL|exact HR|exact HM].
     - intros Hv. destruct (in_dec Nat.eq_dec k out) as [|Hn]; [assumption|exfalso].
       destruct (SI_gap out k HS) as (l1 & p & s & l2 & E & Hps); auto.
       { destruct out as [|o out']; cbn in Hhd; [lia|]. cbn [hd]. lia. }
